@@ -63,6 +63,7 @@ pub struct Probes {
     pub skipped_ops: u64,
     pub reparse_checked: u64,
     pub refills: u64,
+    pub big_input_successes: u64,
     pub same_address_and_length_new_content: u64,
     pub clone_checked: u64,
     pub max_live_results: u64,
@@ -311,6 +312,9 @@ pub fn execute(sc: &Scenario, grammars: &[Grammar], verbose: bool) -> Report {
                 }
                 if r.obs.ok {
                     probes.successes += 1;
+                    if string.len() >= 4096 && rec.b - rec.a >= 4096 {
+                        probes.big_input_successes += 1;
+                    }
                 } else {
                     probes.failures += 1;
                 }
